@@ -63,7 +63,7 @@ CAL = os.environ.get("C11_CAL")
 
 def tol_excess(mode, eps, gnorm):
     """allowed f(estimate) - min f for a run stopped by (mode, eps)"""
-    floor = 10 * FLOOR * (1 + gnorm)
+    floor = FLOOR * (1 + gnorm)
     if mode in ("single", "absloss"):
         return 1e3 * eps + floor
     if mode == "var":
@@ -73,14 +73,14 @@ def tol_excess(mode, eps, gnorm):
 
 def tol_kkt(mode, eps, gnorm):
     """allowed residual of the KKT certificate at the estimate (an upper bound of the sub-optimality)"""
-    floor = 1e4 * FLOOR * (1 + gnorm)
+    floor = 3e4 * FLOOR * (1 + gnorm)
     if mode in ("single", "absloss"):
         return 50 * math.sqrt(eps) + floor
-    return 50 * eps + floor
+    return 100 * eps + floor
 
 
 def tol_cvx(eps_tol, gnorm):
-    return 1e2 * eps_tol * (1 + gnorm)
+    return 30 * eps_tol * (1 + gnorm)
 
 
 @contextlib.contextmanager
@@ -187,6 +187,8 @@ def all_stops(tier):
 def families(tier, seed):
     core, stops, few = [], [], []
     for cfg in M.CFGS:
+        if os.environ.get("C11_CFGS") and cfg not in os.environ["C11_CFGS"].split(","):
+            continue        # development aid only
         S = M.setup(cfg, seed)
         for d in core_datasets(S, tier):
             for kind in ("se", "re"):
@@ -208,7 +210,7 @@ def families(tier, seed):
 def guards(summary):
     g = []
     info = summary["info"]
-    need = ["steps_checked", "runs_stopped_by_criterion", "armijo_halvings_checked", "armijo_alpha_below_one", "boundary_minimisers",
+    need = ["steps_checked", "direction_steps_checked", "runs_stopped_by_criterion", "armijo_halvings_checked", "armijo_alpha_below_one", "boundary_minimisers",
             "interior_minimisers", "kkt_certified", "excess_judged", "competitors_compared", "cvxpy_runs_judged", "agreement_pairs",
             "agreement_positions", "zero_count_tables", "window_sum_decisive", "forward_model_checked", "reference_minimisers_certified"]
     for mode in MODES:
@@ -217,7 +219,9 @@ def guards(summary):
         if info.get(k, 0) < 1:
             g.append("never seen: " + k)
     if info.get("reference_minimiser_unavailable", 0) * 20 > info.get("reference_minimisers_certified", 0):
-        g.append("more than 5% of the problems have no certified reference minimiser")
+        g.append("more than 5% of the problems have no reference minimiser")
+    if info.get("optimality_undecided", 0) * 100 > info.get("excess_judged", 0):
+        g.append("more than 1% of the estimates could be neither certified nor refuted")
     judged = info.get("runs_stopped_by_criterion", 0)
     if info.get("runs_hit_max_iteration", 0) > judged:
         g.append("most runs ended at max_iteration")
@@ -258,6 +262,9 @@ def lockstep(out, S, flag, L, d, stop, site, cls):
     if np.abs(xs[0] - x0).max() > 1e-12:
         out.fail("%s:start-point-not-origin:%s" % (site, cls), "x_0 differs from the origin object by %.3g" % np.abs(xs[0] - x0).max())
     tolp = CPROJ * FLOOR
+    E = S.emb[flag][1]
+    Mt = E.T @ E
+    iso = float(np.abs(Mt - Mt[0, 0] * np.eye(nv)).max()) < 1e-12      # reduced variables <-> stacked frame is a scaled isometry
     info = {"status": "stopped", "n": n, "not_descent": 0.0, "alpha_min": min(al), "clipped": False}
     for k in range(n):
         x, y, a = xs[k], ys[k], al[k]
@@ -280,11 +287,25 @@ def lockstep(out, S, flag, L, d, stop, site, cls):
                 k, F.eq_defect(xst), F.min_eig(xst), tolp))
             return None
         # projected-gradient direction with the reference projection
-        zref, good, cert = M.ref_project_var(S, flag, x - g / mu)
-        if not good:
+        if not iso:
+            # the projection is taken in the stacked frame, the gradient in the reduced variables: "the projected-gradient
+            # direction" is not unambiguous here; only feasibility of x + y is required, optimality is judged end-to-end
+            out.count("direction_check_skipped_non_isometric_parametrisation")
+            yst = F.stacked_from_var(x + y, flag)
+            if F.eq_defect(yst) > tolp or F.min_eig(yst) < -tolp:
+                out.fail("%s:lockstep:projected-point-not-feasible:%s" % (site, cls), "step %d: x_k + y_k: equality defect %.3g, min eigenvalue %.3g" % (
+                    k, F.eq_defect(yst), F.min_eig(yst)))
+                return None
+            good = None
+        else:
+            zref, good, cert = M.ref_project_var(S, flag, x - g / mu)
+        if good is None:
+            pass
+        elif not good:
             out.count("reference_projection_uncertified")
         else:
             err = float(np.abs((zref - x) - y).max())
+            out.count("direction_steps_checked")
             bucket(out, "ystep", err / tolp)
             if err > tolp:
                 out.fail("%s:lockstep:direction-differs-from-reference-step:%s" % (site, cls),
@@ -388,8 +409,6 @@ def reference_minimiser(S, kind, q, key):
             best = (xr, Lr.value(xr), gap)
         if gap <= GAPREF_MAX / 100:
             break
-    if best is not None and best[2] > GAPREF_MAX:
-        best = None
     if len(_REFMIN) > 64:
         _REFMIN.clear()
     _REFMIN[key] = best
@@ -424,6 +443,8 @@ def execute(family, p, seed):
     else:
         out.count("reference_minimisers_certified")
         bucket(out, "gapref", ref[2] / GAPREF_MAX)
+        if ref[2] > GAPREF_MAX:
+            out.count("reference_minimiser_loosely_certified")
         if F.min_eig(ref[0]) < 1e-6:
             out.count("boundary_minimisers")
         else:
@@ -446,31 +467,29 @@ def execute(family, p, seed):
         okay = True
         gb, c = M.gap_bound(S, flag, v, L.grad(v))
         bucket(out, "kkt_" + site, gb / tolk)
-        certified = gb <= tolk
-        if certified:
-            out.count("kkt_certified")
         cause = None
+        excess = None
         if ref is not None:
             excess = fhat - ref[1]
             out.count("excess_judged")
             bucket(out, "excess_" + site, excess / tol)
-            if CAL:
-                with open(CAL, "a") as fh:
-                    fh.write("%s %s %s %s excess=%.3e tol=%.3e kkt=%.3e tolk=%.3e gnorm=%.2e gapref=%.1e\n" % (site, cls, dname, family, excess, tol, gb, tolk, gnorm, ref[2]))
-            if excess > tol + ref[2]:
-                cause = cause_fn()
-                out.fail("%s:not-a-minimiser:%s:%s" % (site, cause, cls),
-                         "data %s: loss %.10g at the estimate, %.10g at the certified solution of an independent convex solve (its KKT gap %.2g); "
-                         "excess %.3g > allowed %.3g; KKT residual at the estimate %.3g" % (dname, fhat, ref[1], ref[2], excess, tol, gb))
-                okay = False
-            elif not certified:
-                out.count("kkt_inconclusive_reference_agrees")
-        elif not certified:
+        if CAL:
+            with open(CAL, "a") as fh:
+                fh.write("%s %s %s %s excess=%.3e tol=%.3e kkt=%.3e tolk=%.3e gnorm=%.2e gapref=%.1e\n" % (
+                    site, cls, dname, family, excess if excess is not None else float("nan"), tol, gb, tolk, gnorm, ref[2] if ref else float("nan")))
+        if excess is not None and excess > tol:
+            # the polished solution of the independent solve is a physical object with a lower loss
             cause = cause_fn()
-            out.fail("%s:not-a-minimiser:kkt-certificate:%s:%s" % (site, cause, cls),
-                     "data %s: KKT residual %.3g > allowed %.3g (dual min eig %.3g, slack %.3g) and no reference minimiser available" % (
-                         dname, gb, tolk, c["dual_min_eig"], c["slack"]))
+            out.fail("%s:not-a-minimiser:%s:%s" % (site, cause, cls),
+                     "data %s: loss %.10g at the estimate, %.10g at the (physical) solution of an independent convex solve (its KKT gap %.2g); "
+                     "excess %.3g > allowed %.3g; KKT residual at the estimate %.3g" % (dname, fhat, ref[1], ref[2], excess, tol, gb))
             okay = False
+        elif gb <= tol or (ref is not None and ref[2] <= tol):
+            out.count("kkt_certified")                    # sub-optimality <= 2 tol against ALL physical competitors
+        elif gb <= tolk or (ref is not None and ref[2] <= GAPREF_MAX):
+            out.count("kkt_certified_loosely")            # sub-optimality <= max(tolk, tol + GAPREF_MAX) against all competitors
+        else:
+            out.count("optimality_undecided")
         for n, fw in comp_f.items():
             out.count("competitors_compared")
             if fw < fhat - tol:
